@@ -136,11 +136,11 @@ R['C11'] = {
  "quick": [{"h":"VpC11_Grammar","x":[[0,1,2,3,4]]},{"h":"VpC11_MemberFails"},
            {"h":"VpC11_Unmarshal","a":[[8,1],[12,2],[16,1,1],[20,1,2],[20,1,1,0],[16,0,2],[24,1,3],[24,1,1,1]]}],
  "bounds": "grammar: every sequence of 0..4 packets whose kinds are symbolic over {SR, RR, SDES, BYE, PLI, APP, XR, Raw}, SDES members with 0..2 chunks x 0..2 items with symbolic item types and text octets (one query per length covers all 8^n kind sequences); member failure: all uint32 TotalLost; Unmarshal agreement: datagrams of 8..24 octets under 8 frame compositions, all bytes symbolic",
- "bounds_thorough": "as quick with sequences of length 0..6",
+ "bounds_thorough": "as quick with sequences of length 0..5",
  "require_reach": ["reach:end"], "opts": {"unwind": 100},
  "outside_claim": ["sequences longer than the bound", "SDES members with more than 2 chunks or items"],
 }
-R['C11']['thorough'] = [{"h":"VpC11_Grammar","x":[[0,1,2,3,4,5,6]]},{"h":"VpC11_MemberFails"},R['C11']['quick'][2]]
+R['C11']['thorough'] = [{"h":"VpC11_Grammar","x":[[0,1,2,3,4,5]]},{"h":"VpC11_MemberFails"},R['C11']['quick'][2]]
 
 def compositions(words):
     # all ways to split `words` 32-bit words into leading frames (each >= 1 word) plus an optional unframed tail
@@ -174,12 +174,12 @@ R['C06'] = {
            {"h":"VpC06_Local","x":[[4,8,12],[4,8,12],[0],[0]]},
            {"h":"VpC06_Local","x":[[16],[8],pts,[0]]},{"h":"VpC06_Local","x":[[8],[16],[0],pts]},
            {"h":"VpC06_Local","a":PEEK}],
- "thorough": [{"h":"VpC06_Framing","a":framing(24)},{"h":"VpC06_Empty"},
+ "thorough": [{"h":"VpC06_Framing","a":framing(20)},{"h":"VpC06_Empty"},
            {"h":"VpC06_Local","x":[[4,8,12],[4,8,12],[0],[0]]},
            {"h":"VpC06_Local","x":[[16,20],[8,12],pts,[0]]},{"h":"VpC06_Local","x":[[8,12],[16,20],[0],pts]},
            {"h":"VpC06_Local","a":PEEK + [[76,8,200,0],[56,8,201,0],[100,12,200,0]]}],
  "bounds": "framing: every datagram length 0..16 under every composition into leading frames plus an arbitrary symbolic tail (76 shapes; all bytes other than the listed length fields symbolic, including version bits and packet types) against an independent frame walker; locality: SR frames of 48, 52, 72 and RR frames of 28, 32, 52 octets (one word short of, and exactly, k reports) followed by an 8-octet frame; two well-framed frames of {4,8,12}x{4,8,12} octets with symbolic packet types and contents, and 16-octet frames of each packet-type class next to an 8-octet frame, compared packet-by-packet with the separately decoded frames; empty and nil datagrams",
- "bounds_thorough": "framing up to 24 octets (316 shapes); locality with 16- and 20-octet frames of every packet-type class",
+ "bounds_thorough": "framing up to 20 octets; locality with 16- and 20-octet frames of every packet-type class next to 8- and 12-octet frames, and larger SR/RR peek frames",
  "require_reach": ["reach:end"], "opts": {"unwind": 100},
  "outside_claim": ["datagrams longer than the bound", "TWCC frames with packet status count above 8"],
 }
@@ -212,15 +212,15 @@ def c17(level):
     big = level == 'thorough'
     q = [{"h":"VpC17_REMB","x":[rng(0,255)]},{"h":"VpC17_Enums"},
          {"h":"VpC17_Decoded","x":[[4,8,12,16,20,24] + ([28] if big else []),[0,200,201,204],[-1]]},
-         {"h":"VpC17_Decoded","x":[[4,8,12,16] + ([20] if big else []),[202,203,206],[-1]]},
-         {"h":"VpC17_Decoded","x":[[8,12] + ([16] if big else []),[207],[-1]]},
+         {"h":"VpC17_Decoded","x":[[4,8,12,16],[202,203,206],[-1]]},
+         {"h":"VpC17_Decoded","x":[[8,12],[207],[-1]]},
          {"h":"VpC17_Decoded","x":[[12,16,20],[205],[1,5,11,15,0]]}]
     for c in shapes(level):
         d = dict(c); d['h'] = 'VpC17_WellFormed'; q.append(d)
     return q
 R['C17'] = {"quick": c17('quick'), "thorough": c17('thorough'),
  "bounds": "REMB String over every float32 bit pattern (one query per exponent field, sign and fraction symbolic); all 256 values of PacketType, SDESType, BlockTypeType, TTLorHopLimitType and all 2^16 XR chunks; String/stringify/CompoundPacket.String of every packet decoded from one symbolic frame (4..24 octets for unknown types, SR, RR, APP; 4..16 for SDES, BYE, PSFB; 8..12 for XR; 12..20 for RTPFB incl. CCFB and TWCC with status count <= 8); String of the well-formed values of the codec shapes alone and inside a compound",
- "require_reach": ["reach:end","reach:accepted"], "opts": {"unwind": 300, "fmtmethods": 1},
+ "require_reach": ["reach:end","reach:accepted"], "opts": {"unwind": 2000, "fmtmethods": 1}, "opts_thorough": {"unwind": 8000},
  "assumptions": ["fmt.Sprintf/Sprint and strings.* are stubs that return an opaque string and do not panic; String/Error methods of their operands are executed, and a panic inside such a nested call is recovered (as fmt does), so only panics in package rtcp's own code outside fmt are reported"],
  "outside_claim": ["panics inside package fmt or strings", "frames longer than the bound"]}
 def c04(level):
